@@ -1258,7 +1258,7 @@ func (e *Exec) exec1(op string, pos []string, kv map[string]string, line string)
 	case "snap":
 		return e.snapCheck()
 	}
-	return "bad-op"
+	return e.execLedgerExt(op, pos, kv, line) // ledgerrace.go, ledgerfault.go
 }
 
 func makeTxid(tx *pb.Transaction) ([]byte, error) {
